@@ -74,7 +74,18 @@ def data(rng, n):
 
 
 BOUNDARY_SIZES = [0, 1, 2, 3, 17, 63, 64, 65, 1023, 1024, 1025, 4095, 4096, 4097, 8191, 8192, 8193,
-                  65535, 65536, 65537]
+                  16383, 16384, 16385, 32767, 32768, 32769, 65535, 65536, 65537, 131071, 131072, 131073]
+
+
+def edge_sizes(maxk=17):
+    """Every 2^k and 3*2^k up to 2^maxk, each with its two neighbours: the sizes at which some buffer, page or
+    threshold of an implementation is exactly full."""
+    out = {0}
+    for k in range(0, maxk + 1):
+        for b in (1 << k, 3 << k):
+            if b <= (1 << maxk) + 1:
+                out.update((b - 1, b, b + 1))
+    return sorted(out)
 BIG_SIZES = [MIB - 1, MIB, MIB + 1, 2 * MIB + 3, 5 * MIB]
 
 
